@@ -11,6 +11,8 @@ ExceptionGroup containing it).
 """
 from __future__ import annotations
 
+import os
+
 from vkit import env, runner
 from vkit.errors import all_nodes, describe, exc_site, first_foreign, valid_load_error
 
@@ -259,15 +261,57 @@ def check_user_case(ctx: runner.Ctx, case):  # noqa: C901
                           f"shape={shape} how={how}: escaping {describe(exc)} does not contain the user exception")
 
 
+def atheris_stage(ctx: runner.Ctx, runs: int):
+    """Coverage-guided stage (thorough tier): fuzz/c04_atheris.py in a subprocess per shard; every case it saves is
+    re-run here through the ordinary oracle, so a verdict never depends on the fuzzing process itself."""
+    import glob  # noqa: PLC0415
+    import json  # noqa: PLC0415
+    import shutil  # noqa: PLC0415
+    import subprocess  # noqa: PLC0415
+    import sys  # noqa: PLC0415
+    script = os.path.join(env.VERIF_ROOT, "fuzz", "c04_atheris.py")
+    probe = subprocess.run([sys.executable, "-c", "import sys; sys.path.append(%r); import atheris" % env.DEPS_DIR],  # noqa: S603
+                           capture_output=True, check=False)
+    if probe.returncode != 0:
+        ctx.note("atheris is not importable: the coverage-guided stage was skipped")
+        return
+    out = os.path.join(env.VERIF_ROOT, "out", "atheris", f"C04_seed{ctx.base_seed}_shard{ctx.shard}")
+    shutil.rmtree(out, ignore_errors=True)
+    proc = subprocess.run([sys.executable, script, "--out", out, "--runs", str(runs), "--seed", str(ctx.seed % 2 ** 31),  # noqa: S603
+                           "--table-seed", str(ctx.base_seed * 31 + ctx.shard)],
+                          capture_output=True, text=True, check=False, timeout=3000,
+                          env={**os.environ, "VERIF_REPO": env.REPO_ROOT, "PYTHONHASHSEED": "0"})
+    stats = {}
+    try:
+        with open(os.path.join(out, "stats.json")) as f:
+            stats = json.load(f)
+    except OSError:
+        ctx.note(f"atheris stage produced no stats (exit {proc.returncode}): {proc.stderr[-300:]}")
+    ctx.count("atheris_execs", int(stats.get("execs", 0)))
+    ctx.count("atheris_raised_loaderror", int(stats.get("raised_loaderror", 0)))
+    ctx.count("atheris_returned", int(stats.get("returned", 0)))
+    for path in sorted(glob.glob(os.path.join(out, "case_*.json"))):
+        with open(path) as f:
+            rec = json.load(f)
+        ctx.count("atheris_saved_cases")
+        check_case(ctx, rec["case"])
+    shutil.rmtree(os.path.join(out, "corpus"), ignore_errors=True)
+
+
 def explore(ctx: runner.Ctx):
     n = ctx.budget(8000, 500000)
     ctx.given(st_case(), lambda c: check_case(ctx, c), n)
     ctx.given(st_user_case(), lambda c: check_case(ctx, c), max(50, n // 40), seed_offset=1)
+    if os.environ.get("VERIF_C04_NO_ATHERIS") != "1":
+        atheris_stage(ctx, ctx.budget(24000, 3200000))
 
 
-RULE = ("cases = (type spec, datum, strict, debug, providers, layouts); datum = arbitrary data soup (40%) or the "
+RULE = ("two engines. Hypothesis: cases = (type spec, datum, strict, debug, providers, layouts); datum = arbitrary data soup (40%) or the "
         "reference dump of a canonical value mutated at 0-3 positions (60%). Non-trivial = the loader raised or the datum "
-        "is nested >= 2; distinct by the whole case. Plus user-code cases (loader/validator raising ArithmeticError).")
+        "is nested >= 2; distinct by the whole case. Plus user-code cases (loader/validator raising ArithmeticError). "
+        "Atheris (coverage-guided, libFuzzer): bytes -> (index into a table of 150 generated (type, mode) loaders, recursively "
+        "decoded datum) with the same oracle inside the target; executions are reported under counters.atheris_execs and every "
+        "case it saves is re-evaluated by the ordinary oracle (those re-evaluations are part of `evaluations`).")
 
 if __name__ == "__main__":
     raise SystemExit(runner.main(
